@@ -475,6 +475,38 @@ def fold_conditional_accumulate(fn, ref_sigs: list) -> int:
     return n
 
 
+def fold_augassign(fn, ref_sigs: list) -> int:
+    """`T = T op V`  ->  `T op= V` (T a name or attribute chain), kept only where the reference has the augmented form
+    (alignment score rises).  Same value for numbers, bytes, tuples; for a list it differs only under aliasing."""
+    n = 0
+    for st in [x for x in _own_nodes(fn) if isinstance(x, ast.Assign)]:
+        if len(st.targets) != 1 or not isinstance(st.targets[0], (ast.Name, ast.Attribute)) or not isinstance(st.value, ast.BinOp):
+            continue
+        if not isinstance(st.value.op, (ast.Add, ast.Sub, ast.Mult, ast.BitOr, ast.BitAnd)):
+            continue
+        if ast.unparse(st.value.left) != ast.unparse(st.targets[0]):
+            continue
+        before = alignment_score(fn, ref_sigs)
+        new = ast.AugAssign(target=st.targets[0], op=st.value.op, value=st.value.right)
+        ast.copy_location(new, st)
+        done = False
+        for holder in [fn] + list(_own_nodes(fn)):
+            for field in ("body", "orelse", "finalbody"):
+                lst = getattr(holder, field, None)
+                if isinstance(lst, list) and st in lst:
+                    i = lst.index(st)
+                    lst[i] = new
+                    if alignment_score(fn, ref_sigs) > before:
+                        n += 1
+                    else:
+                        lst[i] = st
+                    done = True
+                    break
+            if done:
+                break
+    return n
+
+
 class _Subst(ast.NodeTransformer):
     def __init__(self, name, expr):
         self.name, self.expr = name, expr
@@ -689,6 +721,9 @@ def normalise_module(modname: str, tree: ast.Module, source: str = "") -> dict:
                 k = fold_conditional_accumulate(fn, r["stmts"])
                 if k:
                     entry["folded_conditional_accumulate"] = k
+                k = fold_augassign(fn, r["stmts"])
+                if k:
+                    entry["folded_augassign"] = k
             if "inlined" not in entry and r.get("stmts"):
                 # a hoist next to a real edit: keep the inlinings that bring statements back to their reference form
                 inl = inline_new_locals(fn, r["locals"], r["stmts"])
